@@ -10,6 +10,7 @@ Cookie sessions are simulated through the hostenv `aiohttp_session` shim (reques
 from __future__ import annotations
 
 import asyncio
+import contextvars
 import json
 import warnings
 from unittest import mock
@@ -18,6 +19,11 @@ from .world import World
 
 AUTH_USERINFO = '/api/v1alpha/userinfo'
 AUTH_PERMISSION = '/api/v1alpha/check_system_permission'
+
+# the SQL log of the request a task belongs to, while several requests are in flight (HttpWorld.request_par): every request runs in its
+# own task, a task (and every task it spawns) carries its own copy of the context, so a statement is attributed to the request on
+# whose behalf it is sent, whichever task sends it
+_REQ_LOG = contextvars.ContextVar('verif_request_sql_log', default=None)
 
 
 class HttpWorld(World):
@@ -103,7 +109,46 @@ class HttpWorld(World):
                     events={k: a[k].is_set() for k in ('cancel_batch_state_changed', 'delete_batch_state_changed')})
 
     # ------------------------------------------------------------------------------------------
-    async def request(self, method, path, *, headers=None, body=b'', session=None):
+    async def request_par(self, reqs, sched=(), starts=()):
+        """several requests in flight at once.  reqs: [dict(method, path, headers, body, session)]; every request runs as its own task on
+        the (virtual) loop; request i first yields starts[i] times (who arrives first), then every SQL statement any of them sends is a
+        schedule point at which the generated schedule `sched` (small ints: how many times to yield before the statement is executed)
+        decides who goes next -- the same mechanism as World.op_par.  Transactions still serialise from their first write or locking
+        read (the minimysql gate).  -> ([response dict as request() returns it, plus 'order': global sequence numbers of its statements],
+        number of schedule points)"""
+        sched = list(sched)
+        pos = [0]
+        seq = [0]
+
+        async def shook(sess, sql):
+            k = sched[pos[0] % len(sched)] if sched else 0
+            pos[0] += 1
+            for _ in range(k):
+                await asyncio.sleep(0)
+
+        def fhook(sess, phase, sql):
+            rec = _REQ_LOG.get()
+            if rec is not None and phase in ('statement', 'begin', 'commit', 'rollback'):
+                rec['sql'].append((phase, ' '.join(str(sql).split())[:160]))
+                if phase == 'statement':
+                    seq[0] += 1
+                    rec['order'].append(seq[0])
+
+        async def one(i, r):
+            for _ in range(starts[i] if i < len(starts) else 0):
+                await asyncio.sleep(0)
+            return await self.request(r['method'], r['path'], headers=r.get('headers'), body=r.get('body') or b'', session=r.get('session'),
+                                      _shared_hook=True)
+        eng = self.engine
+        saved_f, saved_s = eng.fault_hook, getattr(eng, 'sched_hook', None)
+        eng.fault_hook, eng.sched_hook = fhook, shook
+        try:
+            outs = await asyncio.gather(*[asyncio.ensure_future(one(i, r)) for i, r in enumerate(reqs)])
+        finally:
+            eng.fault_hook, eng.sched_hook = saved_f, saved_s
+        return list(outs), pos[0]
+
+    async def request(self, method, path, *, headers=None, body=b'', session=None, _shared_hook=False):
         """-> dict(status, location, text, reason, json, exc, notsupported, stub, sql=[(phase, sql)])"""
         from aiohttp import streams
         from aiohttp.test_utils import make_mocked_request
@@ -132,8 +177,13 @@ class HttpWorld(World):
         def sqlhook(sess, phase, sql):
             if phase in ('statement', 'begin', 'commit', 'rollback'):
                 log.append((phase, ' '.join(str(sql).split())[:160]))
-        saved = self.engine.fault_hook
-        self.engine.fault_hook = sqlhook
+        if _shared_hook:
+            # one of several requests in flight (request_par owns the engine hooks): this task's context names the log
+            out['order'] = []
+            _REQ_LOG.set(out)
+        else:
+            saved = self.engine.fault_hook
+            self.engine.fault_hook = sqlhook
         try:
             resp = await self.http_app._handle(req)
             if isinstance(resp, web.StreamResponse):
@@ -162,5 +212,6 @@ class HttpWorld(World):
             out['status'] = 500
             out['exc'] = f'{type(e).__name__}: {str(e)[:300]}'
         finally:
-            self.engine.fault_hook = saved
+            if not _shared_hook:
+                self.engine.fault_hook = saved
         return out
